@@ -70,11 +70,17 @@ var allSpecs = []HarnessSpec{
 	{Prop: "C09", Pkg: "taskfile/ast", Func: "ZZ_C09_Merge", Tag: "siblings", POR: true, Replay: "native", Twin: true, Params: map[string]int{"diamond": 0, "__maporder": 1, "__coarse": 1}},
 	{Prop: "C09", Pkg: "taskfile/ast", Func: "ZZ_C09_Merge", Tag: "diamond", POR: true, Replay: "native", Params: map[string]int{"diamond": 1, "__maporder": 1, "__maporder_scope": 1, "__coarse": 1}},
 	{Prop: "C09", Pkg: "taskfile/ast", Func: "ZZ_C09_Merge", Tag: "deep-diamond", POR: true, Replay: "native", Params: map[string]int{"diamond": 1, "deep": 1, "__maporder": 1, "__maporder_scope": 1, "__coarse": 1}},
+	{Prop: "C09", Func: "ZZ_C09_WhenChangedKey", Replay: "native", Twin: true, Params: map[string]int{"__maporder": 1, "__maporder_scope": 1}},
+	{Prop: "C06", Func: "ZZ_C06_DynamicBinding", Replay: "native", Twin: true},
+	{Prop: "C11", Func: "ZZ_C06_DynamicBinding", Replay: "native"},
+	{Prop: "C06", Func: "ZZ_C09_WhenChangedKey", Replay: "native", Params: map[string]int{"__maporder": 1, "__maporder_scope": 1}},
 	{Prop: "C09", Func: "ZZ_C09_Dotenv", Replay: "native", Twin: true, Params: map[string]int{"__maporder": 1, "__maporder_scope": 1}},
 	{Prop: "C08", Pkg: "taskfile", Func: "ZZ_C08_Reader", POR: true, Replay: "native", Twin: true, Params: map[string]int{"__coarse": 1}},
 	{Prop: "C10", Pkg: "taskfile", Func: "ZZ_C10_IncludeStatement", POR: true, Replay: "native", Twin: true, Params: map[string]int{"__coarse": 1}},
 	{Prop: "C09", Pkg: "taskfile", Func: "ZZ_C09_NodeResolve", Replay: "native", Twin: true},
 	{Prop: "C20", Pkg: "taskfile", Func: "ZZ_C20_HTTPNodeOffline", Replay: "native", Twin: true},
+	{Prop: "C20", Pkg: "taskfile", Func: "ZZ_C20_ErrorClassThroughIncludes", POR: true, Replay: "native", Twin: true, Params: map[string]int{"__coarse": 1}},
+	{Prop: "C08", Pkg: "taskfile", Func: "ZZ_C09_NodeResolve", Replay: "native"},
 	{Prop: "C20", Pkg: "taskfile", Func: "ZZ_C20_NodeOnlineOffline", Replay: "native", Twin: true},
 	{Prop: "C09", Pkg: "taskfile", Func: "ZZ_C09_Reader", POR: true, Replay: "native", Twin: true, Params: map[string]int{"__coarse": 1}},
 	{Prop: "C10", Pkg: "", Func: "ZZ_C10_Vars", Replay: "native", Twin: true},
@@ -99,6 +105,7 @@ var allSpecs = []HarnessSpec{
 	{Prop: "C18", Func: "ZZ_C18_Kernel", Tag: "shape=1", POR: true, Replay: "native-race", Params: map[string]int{"shape": 1, "failing": 1, "__coarse": 1, "__race": 1}},
 	{Prop: "C18", Func: "ZZ_C18_Deferred", POR: true, Replay: "native-race", Params: map[string]int{"__coarse": 1, "__race": 1}},
 	{Prop: "C18", Func: "ZZ_C18_DynamicVars", POR: true, Replay: "native-race", Twin: true, Params: map[string]int{"__coarse": 1, "__race": 1}},
+	{Prop: "C18", Func: "ZZ_C18_ShellOptions", POR: true, Replay: "native-race", Twin: true, Params: map[string]int{"__coarse": 1, "__race": 1}},
 	{Prop: "C18", Func: "ZZ_C18_Names", POR: true, Replay: "native-race", Twin: true, Params: map[string]int{"__coarse": 1, "__race": 1}},
 	{Prop: "C18", Func: "ZZ_C18_Compile", POR: true, Replay: "native-race", Twin: true, Params: map[string]int{"__coarse": 1, "__race": 1}},
 	{Prop: "C18", Pkg: "internal/output", Func: "ZZ_C17_Prefixed", Tag: "race", POR: true, Replay: "native-race", Params: map[string]int{"maxchunks": 1, "__coarse": 1, "__race": 1}},
